@@ -14,7 +14,7 @@ RULE = ("per class: (a) joint assignments to all CDB fields at once (service act
         "alphabet; the spec encoder turns the assignment into bytes, then unmarshall_cdb(bytes) must equal the assignment, "
         "marshall_cdb(assignment) and marshall_cdb(unmarshall_cdb(bytes)) must equal the bytes, and relative to the baseline only the "
         "deviating fields may change; (b) every CDB built by the constructor for argument tuples with at most k-1 deviations is decoded "
-        "and re-encoded; (c) 13 fresh processes whose first library action is a base-class marshall / build / decode with an operation code of each length group, a refused marshall or a refused construction, followed by the first-ever dictionary-level encode/decode of every class at both baselines; (d) per class, the layout table re-bound with one more field in a free byte (a user adding the CONTROL byte): class-level encode, instance-level build and decode must follow the table in place. Non-trivial = at least one deviation; distinct = distinct (class, mode, assignment).")
+        "and re-encoded, allocation / transfer lengths 2^24+1 ... 2^32-1 included (buffers stood in for by length-only objects); (c) 13 fresh processes whose first library action is a base-class marshall / build / decode with an operation code of each length group, a refused marshall or a refused construction, followed by the first-ever dictionary-level encode/decode of every class at both baselines; (d) per class, the layout table re-bound with one more field in a free byte (a user adding the CONTROL byte): class-level encode, instance-level build and decode must follow the table in place. Non-trivial = at least one deviation; distinct = distinct (class, mode, assignment).")
 ASSUMPTIONS = [
     "oracle: vf/spec/cdb.py + vf/spec/bits.py",
     "each class is used the way the repository's tests use it: an instance of the class is constructed immediately before its marshall_cdb/unmarshall_cdb are called (isolation between classes is C09's subject)",
@@ -153,6 +153,36 @@ def check_assignment(name, cls, vals, basevals=None, dev=()):
     return out
 
 
+def check_built_wide(name, cls, op):
+    """constructor-built CDBs for allocation / transfer lengths beyond what can be allocated (2^31-1 ... 2^32-1), with the data
+    buffers stood in for by length-only objects (see C01): decoding returns what the command was built from"""
+    from vf.props import c01
+    c = S.CLASSES[name]
+    out = []
+    for arg, field in c["args"].items():
+        if field not in S.ALLOCATING:
+            continue
+        width = next((w for (f, _, _, w) in lib_fields(name) if f == field), 0)
+        if width < 24:
+            continue
+        for v in sorted(x for x in {(1 << 24) + 1, (1 << 31) - 1, 1 << 31, (1 << 31) + 0x10, (1 << 32) - 1} if x < (1 << width)):
+            point = dict(CS.baseline(name))
+            point[arg] = v
+            kw = CS.build_kwargs(name, point, ata_blocksize=512 if name in S.ATA_LBA_BYTES else None, nodata=True)
+            try:
+                with c01.lazy_buffers():
+                    cmd = cls(op, **kw)
+                d = cls.unmarshall_cdb(bytearray(bytes(cmd.cdb)))
+            except MemoryError:
+                continue
+            except Exception as e:   # noqa: BLE001
+                out.append(("built_wide/%s" % name, "%s(%s=%#x) raised %s: %s" % (name, arg, v, type(e).__name__, e)))
+                continue
+            if d.get(field) != v:
+                out.append(("built_wide/%s/%s" % (name, field), "%s built with %s=%#x: its CDB %s decodes to %s=%r" % (name, arg, v, bytes(cmd.cdb).hex(), field, d.get(field))))
+    return out
+
+
 def check_extension(name):
     """a user extends a class's layout by re-binding the table with one more field (the CONTROL byte the shipped layouts leave out):
     encode (class level and through an instance) and decode must all follow the table that is in place"""
@@ -196,6 +226,9 @@ def check_extension(name):
 def run_case(case):
     if case[0] == "extension":
         return check_extension(case[1])
+    if case[0] == "built_wide":
+        cls, inst, op = fresh_instance(case[1])
+        return check_built_wide(case[1], cls, op)
     if case[0] == "first-use":
         return [x for (_, _, v) in run_first_use(case[1]) for x in v]
     name, mode = case[0], case[1]
@@ -301,6 +334,15 @@ def run_partition(part, tier, seed):
         for k, what in v:
             acc.violation(k, what, case)
         acc.outcome((name, "built", tuple(sorted(point.items())), tuple(k for k, _ in v)))
+    case = ["built_wide", name]
+    acc.case(case, nontrivial=True, key=("built_wide", name))
+    try:
+        v = check_built_wide(name, cls, op)
+    except Exception as e:
+        v = [("raises/%s" % name, "%s: wide check %s %r" % (name, type(e).__name__, e))]
+    for k, what in v:
+        acc.violation(k, what, case)
+    acc.outcome((name, "built_wide", tuple(k for k, _ in v)))
     case = ["extension", name]
     acc.case(case, nontrivial=True, key=("extension", name))
     try:
